@@ -7,6 +7,8 @@ This Source Code Form is subject to the terms of the Mozilla Public
 License, v. 2.0. If a copy of the MPL was not distributed with this file,
 You can obtain one at http://mozilla.org/MPL/2.0/.
 */
+#include <limits>
+
 #include "libfive/eval/eval_array.hpp"
 #include "libfive/eval/tape.hpp"
 #include "libfive/eval/deck.hpp"
@@ -259,9 +261,17 @@ void ArrayEvaluator::operator()(Opcode::Opcode op, Clause::Id id,
                 // Work around a limitation in pow by using boost's nth-root
                 // function on a single-point interval
                 if (a(i) < 0)
-                    out(i) = Interval::nth_root(
+                {
+                    // A result that may be NaN (an even root of a negative
+                    // base) has no value; its interval bounds are the
+                    // whole line, not a number.
+                    const auto r = Interval::nth_root(
                             Interval(a(i), a(i)),
-                            Interval(b(i), b(i))).lower();
+                            Interval(b(i), b(i)));
+                    out(i) = r.isSafe()
+                        ? r.lower()
+                        : std::numeric_limits<float>::quiet_NaN();
+                }
                 else
                     out(i) = powf(a(i), 1.0f/b(i));
             }
